@@ -196,16 +196,16 @@ theorem C17_invEdges_iff (w : World) :
     components and rows (never addressed by a location) -/
 def vacantArch : Arch := { index := 0, comps := [], cols := [], ids := [] }
 
-def absEntry : SlabEntry Arch → Arch
+def absEntry_c17 : SlabEntry Arch → Arch
   | .occ a => a
   | .vacant _ => vacantArch
 
 /-- the abstraction of the (archetypes, entities) part of a world to the pure store of C02 -/
 def World.toStore (w : World) : Store :=
-  { archs := w.archs.entries.map absEntry, locs := w.entities.toList }
+  { archs := w.archs.entries.map absEntry_c17, locs := w.entities.toList }
 
 theorem toStore_archs_getElem? (w : World) (i : Nat) :
-    w.toStore.archs[i]? = (w.archs.entries[i]?).map absEntry := by
+    w.toStore.archs[i]? = (w.archs.entries[i]?).map absEntry_c17 := by
   simp [World.toStore]
 
 theorem toStore_archs_of_get {w : World} {i : Nat} {a : Arch} (h : w.archs.get i = some a) :
@@ -227,13 +227,13 @@ theorem toStore_rowId (w : World) (l : Loc) (e : Key) :
   | some en =>
     cases en with
     | vacant n =>
-      simp only [Option.map_some, absEntry, vacantArch]
+      simp only [Option.map_some, absEntry_c17, vacantArch]
       constructor
       · intro h; simp at h
       · rintro ⟨a, ha, -⟩
         rw [Slab.get_eq_some_iff, he] at ha; cases ha
     | occ a =>
-      simp only [Option.map_some, absEntry]
+      simp only [Option.map_some, absEntry_c17]
       constructor
       · intro h; exact ⟨a, (Slab.get_eq_some_iff _ _ _).2 he, h⟩
       · rintro ⟨a', ha', h⟩
@@ -300,7 +300,7 @@ theorem toStore_wf_iff {w : World} (hent : w.entities.WF) :
         cases en with
         | vacant n =>
           cases hi
-          exact ⟨rfl, by simp [absEntry, vacantArch], by simp [absEntry, vacantArch]⟩
+          exact ⟨rfl, by simp [absEntry_c17, vacantArch], by simp [absEntry_c17, vacantArch]⟩
         | occ b =>
           cases hi
           obtain ⟨p1, p2, p3, -⟩ := h2 i b ((Slab.get_eq_some_iff _ _ _).2 he)
@@ -496,7 +496,7 @@ theorem new_comps_sorted_distinct {l : List Nat} (hs : strictlySorted l = true) 
     (insertSorted l c).length = l.length + 1 ∧ ∀ x, x ∈ insertSorted l c ↔ x = c ∨ x ∈ l := by
   rw [strictlySorted_iff] at hs ⊢
   exact ⟨insertSorted_sorted hs c, insertSorted_ne_of_not_mem hc, insertSorted_length_of_not_mem hc,
-    mem_insertSorted l c⟩
+    mem_insertSorted_edges l c⟩
 
 /-- `traverse_remove`: filtering out a present component keeps the set strictly sorted and makes it different -/
 theorem removed_comps_sorted_distinct {l : List Nat} (hs : strictlySorted l = true) {c : Nat} (hc : c ∈ l) :
